@@ -12,9 +12,11 @@ RULE = ('(a) valid files of each supported format from the independent generator
         'LINE-event step counter.  Distinct by input bytes; non-trivial = a valid file in a non-default layout, or a hostile input '
         'that is not plain random noise (i.e. derived from a valid file or a signature).  (c) a coverage-guided leg: atheris / libFuzzer '
         'mutates a corpus of valid files and signatures against the same entry points in a child process; every artifact is re-identified '
-        'through the full oracle.')
+        'through the full oracle.  (d) the answer is a function of the bytes: a share of the inputs is identified again through '
+        'binary_file_type_from_path, from a file object handed over at a non-zero offset, and at the end of the shard after everything '
+        'else; a few inputs per shard are 0.2-2 MB (one endless line, line ends only, zeros, a repeated physical record, a TIF chain).')
 ASSUMPTIONS = [
-    'expected codes: RP66V1 -> RP66V1; LIS -> LIS / LISt (TIF) ; LAS -> LAS1.2 / LAS2.0 by VERS; BIT -> BIT; DAT -> DAT',
+    'expected codes: RP66V1 -> RP66V1; LIS -> LIS / LISt (TIF) / LIStr (byte-reversed TIF markers); LAS -> LAS1.2 / LAS2.0 by VERS; BIT -> BIT; DAT -> DAT',
     'TIF-marked LIS files whose first record is exactly 276 bytes share the BIT signature and are excluded, as the property says',
     '"terminates promptly" is decided on a logical clock: LINE events <= A*len + B with A, B set ~20x above the maximum observed on valid inputs; wall clock is only a watchdog',
     'LAS files in byte-reversed TIF or RP66V1 with TIF markers are not generated (not in the property)',
@@ -27,7 +29,7 @@ MECHANISMS = [
     ('TotalDepth.LIS.core.File', 'file_read_with_best_physical_record_pad_settings'),
     ('TotalDepth.DAT.DAT_parser', 'can_parse_file'), ('TotalDepth.BIT.ReadBIT', 'is_bit_file'),
 ]
-REQUIRED_MONITORS = ['valid_identified', 'metamorphic_same_code', 'no_raise', 'code_in_documented_set', 'rewound_and_unchanged', 'step_budget',
+REQUIRED_MONITORS = ['valid_identified', 'metamorphic_same_code', 'same_bytes_same_code', 'no_raise', 'code_in_documented_set', 'rewound_and_unchanged', 'step_budget',
                      'format_gates_no_raise', 'bit_gate_accepts_valid_bit', 'dat_gate_accepts_valid_dat', 'coverage_guided_no_crash']
 MIN_NONTRIVIAL = {'quick': 20000, 'thorough': 300000}
 NSHARDS = 16
@@ -93,6 +95,58 @@ def identify(rec, bft, steps, data, label, expect=None, witness=None):
     return code
 
 
+def same_answer(rec, bft, data, code, how, label, start=0, path=None):
+    """The answer is a function of the bytes: the same bytes identified again - through binary_file_type_from_path, from a file
+    object that is not at offset 0 when handed over, or later in the process after other files - must get the same code."""
+    rec.mon('same_bytes_same_code')
+    rec.cls('again:' + how)
+    try:
+        if path is not None:
+            with open(path, 'wb') as fh:
+                fh.write(data)
+            try:
+                code2 = bft.binary_file_type_from_path(path)
+            finally:
+                os.unlink(path)
+        else:
+            f = io.BytesIO(data)
+            f.seek(start)
+            code2 = bft.binary_file_type(f)
+    except Exception as e:  # noqa
+        rec.violation('same_bytes_same_code', how + ':' + type(e).__name__, 'identification (%s) raised %s on a %d-byte %s input that was identified as %r before: %s' % (
+            how, type(e).__name__, len(data), label, code, str(e)[:200]), {'input': data, 'len': len(data), 'class': label, 'how': how, 'start': start, 'first': code}, exc=e)
+        return
+    if code2 != code:
+        rec.violation('same_bytes_same_code', how, 'the same %d bytes (%s) were identified as %r and then (%s%s) as %r' % (
+            len(data), label, code, how, ', file object handed over at offset %d' % start if start else '', code2),
+                      {'input': data, 'len': len(data), 'class': label, 'how': how, 'start': start, 'first': code, 'second': code2})
+
+
+def big_input(rng):
+    """Inputs of 0.2 .. 2 MB whose shape keeps a careless recogniser busy: one endless line, only line ends, zeros, one repeated LIS-like
+    physical record, a valid signature followed by megabytes."""
+    n = rng.choice([200_000, 1_000_000, 2_000_000])
+    k = rng.randrange(8)
+    if k == 0:
+        return 'big:one-line', bytes([rng.choice(b'abc 0123456789.-')]) * n
+    if k == 1:
+        return 'big:line-ends', rng.choice([b'\n', b'\r\n', b' \n', b'#\n']) * (n // 20)
+    if k == 2:
+        return 'big:zeros', bytes(n)
+    if k == 3:
+        return 'big:0xff', b'\xff' * n
+    if k == 4:
+        # physical records of 4 + m bytes, type 0 logical records, over and over (pr_limit of the LIS recogniser)
+        m = rng.choice([2, 6, 60, 1000])
+        pr = (4 + m).to_bytes(2, 'big') + b'\x00\x00' + bytes([rng.choice([0, 128, 34, 64])]) + bytes(m - 1)
+        return 'big:lis-like-records', pr * (min(n, 200_000) // len(pr))      # a LIS index is built over all of it: linear, but slow
+    if k == 5:
+        return 'big:las-head', b'~V\n VERS. 2.0 : x\n WRAP. NO : x\n~A\n' + b' 1.0 2.0 3.0\n' * (n // 13)
+    if k == 6:
+        return 'big:tif-chain', b''.join((0).to_bytes(4, 'little') + (max(0, 12 * i - 12)).to_bytes(4, 'little') + (12 * i + 12).to_bytes(4, 'little') for i in range(n // 12))
+    return 'big:random-ascii', bytes(rng.choice(b' \t\n0123456789.-+eE:~#abcXYZ') for _ in range(200_000))
+
+
 def gates(rec, data, label, expect, code, w):
     from TotalDepth.BIT import ReadBIT
     from TotalDepth.DAT import DAT_parser
@@ -122,6 +176,18 @@ def gates(rec, data, label, expect, code, w):
             rec.violation('dat_gate_accepts_valid_dat', 'refused', 'DAT_parser.can_parse_file is %r for a valid DAT file' % ok, dict(w, got=repr(ok)))
 
 
+def all_providers():
+    """The shared providers plus, for this property only, LIS with byte-reversed TIF markers (documented code LIStr)."""
+    from tdv.gen import providers
+    provs = dict(providers.available())
+    try:
+        from tdv.gen import lis_provider
+        provs['lis_tif_reversed'] = lambda rng: lis_provider._make(rng, 'be')
+    except ImportError:
+        pass
+    return provs
+
+
 def run_atheris(ctx, p):
     """Coverage-guided leg: libFuzzer (through atheris) mutates a corpus of valid files and signatures against the real
     identification in a child process; every artifact it leaves is re-identified here through the full oracle."""
@@ -135,7 +201,7 @@ def run_atheris(ctx, p):
     tmp = os.environ['VERIF_SHARD_TMP']
     corpus = os.path.join(tmp, 'corpus')
     os.makedirs(corpus, exist_ok=True)
-    provs = providers.available()
+    provs = all_providers()
     n = 0
     for fmt in sorted(provs):
         for _ in range(8):
@@ -222,7 +288,9 @@ def run_shard(ctx, p):
     from tdv.gen import providers, corrupt
     rec, rng = ctx.rec, ctx.rng
     steps = StepCounter()
-    provs = providers.available()
+    provs = all_providers()
+    tmp = os.environ.get('VERIF_SHARD_TMP') or '.'
+    later = []       # (data, code, label): identified again at the end of the shard, after everything else
     rec.note('providers', sorted(provs))
     missing = [f for f in providers.FORMATS if f not in provs]
     if missing:
@@ -237,6 +305,12 @@ def run_shard(ctx, p):
                  sample={'format': fmt, 'len': len(v.data), 'layout': v.describe, 'code': code})
         if len(pool[fmt]) < 12:
             pool[fmt].append(v)
+        if code is not None and i % 7 == 3:
+            same_answer(rec, bft, v.data, code, 'from-path', fmt, path=os.path.join(tmp, 'valid_%d.bin' % i))
+        if code is not None and i % 7 == 5:
+            same_answer(rec, bft, v.data, code, 'handed-over-at-offset', fmt, start=rng.choice([1, 12, 80, len(v.data) // 2, len(v.data)]))
+        if code is not None and i % 10 == 1 and len(later) < 60:
+            later.append((v.data, code, fmt))
         # metamorphic partner: same generator parameters, other data content and ~10x size
         if v.regen is not None and i % 3 == 0:
             v2 = v.regen(rng)
@@ -262,8 +336,22 @@ def run_shard(ctx, p):
             if v.corruptor is not None and rng.random() < 0.35:
                 op, data = v.corruptor(rng)
             label, nt = 'mutated:%s:%s' % (fmt, op), True
-        identify(rec, bft, steps, data, label)
+        code = identify(rec, bft, steps, data, label)
         rec.case(data, nt, classes=[label])
+        if code is not None and i % 60 == 7:
+            same_answer(rec, bft, data, code, 'from-path', label, path=os.path.join(tmp, 'hostile_%d.bin' % i))
+        if code is not None and i % 12 == 5:
+            same_answer(rec, bft, data, code, 'handed-over-at-offset', label, start=rng.choice([1, 2, 12, 80, max(0, len(data) - 1), len(data), len(data) + 5]))
+        if code is not None and i % 40 == 11 and len(later) < 200:
+            later.append((data, code, label))
+    # ---- (b') large inputs: promptness is decided on the same logical clock
+    for i in range(p.get('big', 3)):
+        label, data = big_input(rng)
+        identify(rec, bft, steps, data, label)
+        rec.case(data[:64] + b'%d' % len(data), True, classes=[label.split(':')[0], label])
+    # ---- the same bytes again, after everything else this process has identified in between
+    for data, code, label in later:
+        same_answer(rec, bft, data, code, 'later-in-the-process', label)
     steps.close()
 
 
